@@ -48,7 +48,10 @@ type pList struct {
 	isNil bool
 }
 type pRe struct{ name string }
-type pUnk struct{ why string }
+type pUnk struct {
+	why string
+	env bool // unknown because it comes from outside the text (a call that is not modelled), not because the text class leaves it open
+}
 type pTuple []pVal
 type pByte struct {
 	known bool
@@ -62,6 +65,8 @@ type pElemPtr struct {
 type pCell struct{ id ssa.Value }
 
 type pResult struct {
+	probed    bool   // the path ended at the probed call
+	probeArg  string // canonical text handed to it
 	vals      []pVal
 	choices   map[string]bool // canonical text matched against the CJK pattern -> outcome chosen on this path
 	unsafe    []string
@@ -80,6 +85,13 @@ type pEval struct {
 	// a search met a segment that may or may not contain the character searched: the case must be
 	// split on that (refinement request)
 	refine *pRefine
+	// optional: model of calls the evaluator does not know (e.g. the rule-item parser's results);
+	// probe: a path ends when it calls this function, the text of argument probeIdx is recorded;
+	// forkEnv: a branch on a value unknown for reasons outside the text is explored both ways
+	model    func(call *ssa.Call) (pVal, bool)
+	probe    string
+	probeIdx int
+	forkEnv  bool
 }
 
 type pRefine struct {
@@ -363,7 +375,7 @@ func (e *pEval) indexIn(s pStr, ch byte, last bool) pVal {
 		return pConstInt(-1)
 	}
 	if len(n.parts) != 1 {
-		return pUnk{"search in a composed text"}
+		return pUnk{why: "search in a composed text"}
 	}
 	p := n.parts[0]
 	switch p.kind {
@@ -374,7 +386,7 @@ func (e *pEval) indexIn(s pStr, ch byte, last bool) pVal {
 		}
 		return pConstInt(int64(i))
 	case 2:
-		return pUnk{"search in a package variable"}
+		return pUnk{why: "search in a package variable"}
 	}
 	if !last {
 		for i := p.a; i < p.b; i++ {
@@ -389,7 +401,7 @@ func (e *pEval) indexIn(s pStr, ch byte, last bool) pVal {
 				if e.refine == nil {
 					e.refine = &pRefine{item: i, ch: ch}
 				}
-				return pUnk{fmt.Sprintf("first %q may lie inside segment %s", ch, it.name)}
+				return pUnk{why: fmt.Sprintf("first %q may lie inside segment %s", ch, it.name)}
 			}
 		}
 		return pConstInt(-1)
@@ -406,7 +418,7 @@ func (e *pEval) indexIn(s pStr, ch byte, last bool) pVal {
 			if e.refine == nil {
 				e.refine = &pRefine{item: i, ch: ch, last: true}
 			}
-			return pUnk{fmt.Sprintf("last %q may lie inside segment %s", ch, it.name)}
+			return pUnk{why: fmt.Sprintf("last %q may lie inside segment %s", ch, it.name)}
 		}
 	}
 	return pConstInt(-1)
@@ -419,10 +431,10 @@ func (e *pEval) sliceOf(s pStr, lo, hi *pInt) (pVal, string) {
 		if (lo == nil || (lo.isConst() && lo.c == 0)) && (hi == nil || (hi.isConst() && hi.c == 0)) {
 			return pStr{}, ""
 		}
-		return pUnk{"slice of the empty text"}, "slice bounds may exceed the empty text"
+		return pUnk{why: "slice of the empty text"}, "slice bounds may exceed the empty text"
 	}
 	if len(n.parts) != 1 {
-		return pUnk{"slice of a composed text"}, ""
+		return pUnk{why: "slice of a composed text"}, ""
 	}
 	p := n.parts[0]
 	switch p.kind {
@@ -430,41 +442,41 @@ func (e *pEval) sliceOf(s pStr, lo, hi *pInt) (pVal, string) {
 		l, h := int64(0), int64(len(p.s))
 		if lo != nil {
 			if !lo.isConst() {
-				return pUnk{"slice of a literal at a symbolic position"}, ""
+				return pUnk{why: "slice of a literal at a symbolic position"}, ""
 			}
 			l = lo.c
 		}
 		if hi != nil {
 			if !hi.isConst() {
-				return pUnk{"slice of a literal at a symbolic position"}, ""
+				return pUnk{why: "slice of a literal at a symbolic position"}, ""
 			}
 			h = hi.c
 		}
 		if l < 0 || l > h || h > int64(len(p.s)) {
-			return pUnk{"bad slice"}, "slice bounds out of range on a literal"
+			return pUnk{why: "bad slice"}, "slice bounds out of range on a literal"
 		}
 		return pStr{[]pPart{{kind: 1, s: p.s[l:h]}}}, ""
 	case 2:
-		return pUnk{"slice of a package variable"}, ""
+		return pUnk{why: "slice of a package variable"}, ""
 	}
 	ka, kb := p.a, p.b
 	if lo != nil {
 		k, ok := e.boundaryOf(e.prefixLen(p.a).add(*lo, 1))
 		if !ok {
 			// not at a delimiter: can it be proved inside at least?
-			return pUnk{"cut at a position that is not next to a delimiter"}, "a slice bound is not tied to a delimiter position (may be out of range)"
+			return pUnk{why: "cut at a position that is not next to a delimiter"}, "a slice bound is not tied to a delimiter position (may be out of range)"
 		}
 		ka = k
 	}
 	if hi != nil {
 		k, ok := e.boundaryOf(e.prefixLen(p.a).add(*hi, 1))
 		if !ok {
-			return pUnk{"cut at a position that is not next to a delimiter"}, "a slice bound is not tied to a delimiter position (may be out of range)"
+			return pUnk{why: "cut at a position that is not next to a delimiter"}, "a slice bound is not tied to a delimiter position (may be out of range)"
 		}
 		kb = k
 	}
 	if ka < p.a || kb > p.b || ka > kb {
-		return pUnk{"bad slice"}, fmt.Sprintf("slice bounds out of range: [%d:%d] of [%d:%d] (boundaries)", ka, kb, p.a, p.b)
+		return pUnk{why: "bad slice"}, fmt.Sprintf("slice bounds out of range: [%d:%d] of [%d:%d] (boundaries)", ka, kb, p.a, p.b)
 	}
 	return e.norm(pStr{[]pPart{{kind: 0, a: ka, b: kb}}}), ""
 }
@@ -495,12 +507,12 @@ func (e *pEval) splitOf(s pStr, ch byte, n int64) pVal {
 		hs, ok1 := head.(pStr)
 		ts, ok2 := tail.(pStr)
 		if !ok1 || !ok2 || w1 != "" || w2 != "" {
-			return pUnk{"split not resolved"}
+			return pUnk{why: "split not resolved"}
 		}
 		out = append(out, hs)
 		cur = ts
 		if len(out) > 16 {
-			return pUnk{"split too long"}
+			return pUnk{why: "split too long"}
 		}
 	}
 }
@@ -528,7 +540,7 @@ func (e *pEval) get(st *pState, v ssa.Value) pVal {
 			if b, ok := c.Type().Underlying().(*types.Basic); ok && b.Info()&types.IsString != 0 {
 				return pStr{}
 			}
-			return pUnk{"nil"}
+			return pUnk{why: "nil"}
 		}
 		switch c.Value.Kind() {
 		case constant.String:
@@ -542,7 +554,7 @@ func (e *pEval) get(st *pState, v ssa.Value) pVal {
 	case *ssa.Global:
 		return pCell{c}
 	}
-	return pUnk{"value " + v.Name() + " not modelled"}
+	return pUnk{why: "value " + v.Name() + " not modelled", env: true}
 }
 
 // run walks every path from the entry; results are collected in e.results.
@@ -550,6 +562,20 @@ func (e *pEval) run() {
 	st := &pState{env: map[ssa.Value]pVal{}, cells: map[ssa.Value]pVal{}, choices: map[string]bool{}, visits: map[*ssa.BasicBlock]int{}}
 	if len(e.fn.Params) > 0 {
 		st.env[e.fn.Params[0]] = e.norm(pStr{[]pPart{{kind: 0, a: 0, b: len(e.items)}}})
+	}
+	e.exec(e.fn.Blocks[0], 0, nil, st)
+}
+
+// runWithParams: like run, but the parameters are given explicitly (missing ones are unknown
+// values from outside the text).
+func (e *pEval) runWithParams(params map[int]pVal) {
+	st := &pState{env: map[ssa.Value]pVal{}, cells: map[ssa.Value]pVal{}, choices: map[string]bool{}, visits: map[*ssa.BasicBlock]int{}}
+	for i, prm := range e.fn.Params {
+		if v, ok := params[i]; ok {
+			st.env[prm] = v
+		} else {
+			st.env[prm] = pUnk{why: "parameter " + prm.Name(), env: true}
+		}
 	}
 	e.exec(e.fn.Blocks[0], 0, nil, st)
 }
@@ -597,6 +623,11 @@ func (e *pEval) exec(b *ssa.BasicBlock, from int, pred *ssa.BasicBlock, st *pSta
 		case *ssa.If:
 			cv, ok := e.get(st, x.Cond).(pBool)
 			if !ok {
+				if u, isU := e.get(st, x.Cond).(pUnk); isU && u.env && e.forkEnv {
+					e.exec(b.Succs[0], 0, b, st.clone())
+					e.exec(b.Succs[1], 0, b, st.clone())
+					return
+				}
 				e.fail(st, "a branch is not decided for this class of texts: "+e.show(e.get(st, x.Cond))+" at "+e.p.Pos(x.Cond.Pos()))
 				return
 			}
@@ -632,7 +663,7 @@ func (e *pEval) exec(b *ssa.BasicBlock, from int, pred *ssa.BasicBlock, st *pSta
 				if re, ok := e.get(st, x.Call.Args[0]).(pRe); ok {
 					arg, isStr := e.get(st, x.Call.Args[1]).(pStr)
 					if !isStr {
-						st.env[x] = pUnk{"pattern applied to an unmodelled text"}
+						st.env[x] = pUnk{why: "pattern applied to an unmodelled text"}
 						continue
 					}
 					key := re.name + ":" + e.canon(arg)
@@ -647,6 +678,22 @@ func (e *pEval) exec(b *ssa.BasicBlock, from int, pred *ssa.BasicBlock, st *pSta
 						e.exec(b, i+1, pred, s2)
 					}
 					return
+				}
+			}
+			if e.probe != "" && calleeName(&x.Call) == e.probe && e.probeIdx < len(x.Call.Args) {
+				r := pResult{probed: true, choices: st.choices, unsafe: st.unsafe}
+				if s, ok := e.get(st, x.Call.Args[e.probeIdx]).(pStr); ok {
+					r.probeArg = e.canon(s)
+				} else {
+					r.undecided = "the text handed to " + e.probe + " is not resolved: " + e.show(e.get(st, x.Call.Args[e.probeIdx]))
+				}
+				e.results = append(e.results, r)
+				return
+			}
+			if e.model != nil {
+				if v, ok := e.model(x); ok {
+					st.env[x] = v
+					continue
 				}
 			}
 			st.env[x] = e.evalCall(st, x)
@@ -673,40 +720,40 @@ func (e *pEval) evalCall(st *pState, x *ssa.Call) pVal {
 			if l, ok := e.lenOf(a); ok {
 				return l
 			}
-			return pUnk{"length of a package variable"}
+			return pUnk{why: "length of a package variable"}
 		case pList:
 			return pConstInt(int64(len(a.elems)))
 		}
-		return pUnk{"len of unmodelled value"}
+		return pUnk{why: "len of unmodelled value"}
 	case "strings.Index", "strings.IndexByte", "strings.IndexRune", "strings.LastIndex", "strings.LastIndexByte":
 		s, ok := arg(0).(pStr)
 		ch, okc := sepChar(x.Call.Args[1])
 		if !ok || !okc {
-			return pUnk{nm + " with an unmodelled argument"}
+			return pUnk{why: nm + " with an unmodelled argument"}
 		}
 		return e.indexIn(s, ch, strings.Contains(nm, "Last"))
 	case "strings.Contains", "strings.ContainsRune":
 		s, ok := arg(0).(pStr)
 		ch, okc := sepChar(x.Call.Args[1])
 		if !ok || !okc {
-			return pUnk{nm + " with an unmodelled argument"}
+			return pUnk{why: nm + " with an unmodelled argument"}
 		}
 		iv, ok := e.indexIn(s, ch, false).(pInt)
 		if !ok {
-			return pUnk{nm + " not decided"}
+			return pUnk{why: nm + " not decided"}
 		}
 		return pBool(!(iv.isConst() && iv.c == -1))
 	case "strings.SplitN", "strings.Split":
 		s, ok := arg(0).(pStr)
 		ch, okc := sepChar(x.Call.Args[1])
 		if !ok || !okc {
-			return pUnk{nm + " with an unmodelled argument"}
+			return pUnk{why: nm + " with an unmodelled argument"}
 		}
 		n := int64(-1)
 		if nm == "strings.SplitN" {
 			ni, ok := arg(2).(pInt)
 			if !ok || !ni.isConst() {
-				return pUnk{"SplitN with a symbolic count"}
+				return pUnk{why: "SplitN with a symbolic count"}
 			}
 			n = ni.c
 		}
@@ -715,20 +762,20 @@ func (e *pEval) evalCall(st *pState, x *ssa.Call) pVal {
 		s, ok := arg(0).(pStr)
 		ch, okc := sepChar(x.Call.Args[1])
 		if !ok || !okc {
-			return pUnk{nm + " with an unmodelled argument"}
+			return pUnk{why: nm + " with an unmodelled argument"}
 		}
 		l, isL := e.splitOf(s, ch, 2).(pList)
 		if !isL {
-			return pUnk{"Cut not decided"}
+			return pUnk{why: "Cut not decided"}
 		}
 		if len(l.elems) == 2 {
 			return pTuple{l.elems[0], l.elems[1], pBool(true)}
 		}
 		return pTuple{s, pStr{}, pBool(false)}
 	case "strings.HasPrefix", "strings.HasSuffix":
-		return pUnk{nm + " not modelled"}
+		return pUnk{why: nm + " not modelled"}
 	}
-	return pUnk{"call of " + nm + " not modelled"}
+	return pUnk{why: "call of " + nm + " not modelled", env: true}
 }
 
 func (e *pEval) evalValue(st *pState, v ssa.Value) pVal {
@@ -749,19 +796,25 @@ func (e *pEval) evalValue(st *pState, v ssa.Value) pVal {
 				return n
 			}
 		}
-		return pUnk{"conversion not modelled"}
+		return pUnk{why: "conversion not modelled"}
 	case *ssa.Extract:
 		if t, ok := e.get(st, x.Tuple).(pTuple); ok && x.Index < len(t) {
 			return t[x.Index]
 		}
-		return pUnk{"component of an unmodelled call"}
+		if u, ok := e.get(st, x.Tuple).(pUnk); ok && u.env {
+			return u
+		}
+		return pUnk{why: "component of an unmodelled call"}
 	case *ssa.UnOp:
 		switch x.Op {
 		case token.NOT:
 			if b, ok := e.get(st, x.X).(pBool); ok {
 				return !b
 			}
-			return pUnk{"negation of undecided"}
+			if u, ok := e.get(st, x.X).(pUnk); ok && u.env {
+				return u
+			}
+			return pUnk{why: "negation of undecided"}
 		case token.SUB:
 			if n, ok := e.get(st, x.X).(pInt); ok {
 				return pConstInt(0).add(n, -1)
@@ -776,19 +829,19 @@ func (e *pEval) evalValue(st *pState, v ssa.Value) pVal {
 					if bt, ok := g.Type().(*types.Pointer).Elem().Underlying().(*types.Basic); ok && bt.Info()&types.IsString != 0 {
 						return pStr{[]pPart{{kind: 2, s: g.Name()}}}
 					}
-					return pUnk{"package variable " + g.Name()}
+					return pUnk{why: "package variable " + g.Name()}
 				}
 				if cv, ok := st.cells[a.id]; ok {
 					return cv
 				}
-				return pUnk{"cell read before written"}
+				return pUnk{why: "cell read before written"}
 			case pElemPtr:
 				if a.idx < 0 || a.idx >= len(a.list.elems) {
-					return pUnk{"element out of range"}
+					return pUnk{why: "element out of range"}
 				}
 				return a.list.elems[a.idx]
 			}
-			return pUnk{"load not modelled"}
+			return pUnk{why: "load not modelled"}
 		}
 	case *ssa.IndexAddr:
 		l, ok := e.get(st, x.X).(pList)
@@ -796,11 +849,11 @@ func (e *pEval) evalValue(st *pState, v ssa.Value) pVal {
 		e.touched[x] = true
 		if !ok || !okk || !k.isConst() {
 			e.unsafeI[x] = true
-			return pUnk{"element address not modelled"}
+			return pUnk{why: "element address not modelled"}
 		}
 		if k.c < 0 || int(k.c) >= len(l.elems) {
 			e.markUnsafe(st, x, fmt.Sprintf("index %d of a list of %d element(s): out of range", k.c, len(l.elems)))
-			return pUnk{"element out of range"}
+			return pUnk{why: "element out of range"}
 		}
 		return pElemPtr{l, int(k.c)}
 	case *ssa.Lookup:
@@ -809,14 +862,14 @@ func (e *pEval) evalValue(st *pState, v ssa.Value) pVal {
 		e.touched[x] = true
 		if !ok || !okk {
 			e.unsafeI[x] = true
-			return pUnk{"byte read not modelled"}
+			return pUnk{why: "byte read not modelled"}
 		}
 		one := k.add(pConstInt(1), 1)
 		sub, why := e.sliceOf(s, &k, &one)
 		ss, isS := sub.(pStr)
 		if why != "" || !isS {
 			e.markUnsafe(st, x, "byte index may be out of range")
-			return pUnk{"byte out of range"}
+			return pUnk{why: "byte out of range"}
 		}
 		n := e.norm(ss)
 		if len(n.parts) == 1 && n.parts[0].kind == 0 && n.parts[0].b == n.parts[0].a+1 {
@@ -824,25 +877,25 @@ func (e *pEval) evalValue(st *pState, v ssa.Value) pVal {
 			if it.lit != 0 {
 				return pByte{known: true, lit: it.lit}
 			}
-			return pUnk{"a byte inside segment " + it.name}
+			return pUnk{why: "a byte inside segment " + it.name}
 		}
 		if len(n.parts) == 1 && n.parts[0].kind == 1 && len(n.parts[0].s) == 1 {
 			return pByte{known: true, lit: n.parts[0].s[0]}
 		}
-		return pUnk{"byte not resolved"}
+		return pUnk{why: "byte not resolved"}
 	case *ssa.Slice:
 		e.touched[x] = true
 		s, ok := e.get(st, x.X).(pStr)
 		if !ok {
 			e.unsafeI[x] = true
-			return pUnk{"slice of an unmodelled value"}
+			return pUnk{why: "slice of an unmodelled value"}
 		}
 		var lo, hi *pInt
 		if x.Low != nil {
 			l, ok := e.get(st, x.Low).(pInt)
 			if !ok {
 				e.unsafeI[x] = true
-				return pUnk{"slice at an undecided position"}
+				return pUnk{why: "slice at an undecided position"}
 			}
 			lo = &l
 		}
@@ -850,7 +903,7 @@ func (e *pEval) evalValue(st *pState, v ssa.Value) pVal {
 			h, ok := e.get(st, x.High).(pInt)
 			if !ok {
 				e.unsafeI[x] = true
-				return pUnk{"slice at an undecided position"}
+				return pUnk{why: "slice at an undecided position"}
 			}
 			hi = &h
 		}
@@ -863,11 +916,19 @@ func (e *pEval) evalValue(st *pState, v ssa.Value) pVal {
 		return r
 	case *ssa.BinOp:
 		a, b := e.get(st, x.X), e.get(st, x.Y)
+		if ua, ok := a.(pUnk); ok && ua.env {
+			return pUnk{why: ua.why, env: true}
+		}
+		if ub, ok := b.(pUnk); ok && ub.env {
+			if _, textUnknown := a.(pUnk); !textUnknown {
+				return pUnk{why: ub.why, env: true}
+			}
+		}
 		switch av := a.(type) {
 		case pInt:
 			bv, ok := b.(pInt)
 			if !ok {
-				return pUnk{"arithmetic with an undecided value"}
+				return pUnk{why: "arithmetic with an undecided value"}
 			}
 			switch x.Op {
 			case token.ADD:
@@ -878,13 +939,13 @@ func (e *pEval) evalValue(st *pState, v ssa.Value) pVal {
 				if val, known := av.add(bv, -1).decide(x.Op); known {
 					return pBool(val)
 				}
-				return pUnk{fmt.Sprintf("comparison %s not decided by the segment lengths", x.Op)}
+				return pUnk{why: fmt.Sprintf("comparison %s not decided by the segment lengths", x.Op)}
 			}
-			return pUnk{"integer operation not modelled"}
+			return pUnk{why: "integer operation not modelled"}
 		case pStr:
 			bv, ok := b.(pStr)
 			if !ok {
-				return pUnk{"text operation with an undecided value"}
+				return pUnk{why: "text operation with an undecided value"}
 			}
 			switch x.Op {
 			case token.ADD:
@@ -892,22 +953,36 @@ func (e *pEval) evalValue(st *pState, v ssa.Value) pVal {
 			case token.EQL, token.NEQ:
 				ca, cb := e.canon(av), e.canon(bv)
 				eq, known := false, false
+				allLit := func(s pStr) (string, bool) {
+					out := ""
+					for _, p := range e.norm(s).parts {
+						if p.kind != 1 {
+							return "", false
+						}
+						out += p.s
+					}
+					return out, true
+				}
+				la, oka := allLit(av)
+				lb, okb := allLit(bv)
 				switch {
+				case oka && okb:
+					eq, known = la == lb, true
 				case ca == cb:
 					eq, known = true, true
 				case e.emptiness(av) == 1 && e.emptiness(bv) == 0, e.emptiness(av) == 0 && e.emptiness(bv) == 1:
 					eq, known = false, true
 				}
 				if !known {
-					return pUnk{"text comparison not decided: " + ca + " vs " + cb}
+					return pUnk{why: "text comparison not decided: " + ca + " vs " + cb}
 				}
 				return pBool(eq == (x.Op == token.EQL))
 			}
-			return pUnk{"text operation not modelled"}
+			return pUnk{why: "text operation not modelled"}
 		case pBool:
 			bv, ok := b.(pBool)
 			if !ok {
-				return pUnk{"boolean operation with an undecided value"}
+				return pUnk{why: "boolean operation with an undecided value"}
 			}
 			switch x.Op {
 			case token.EQL:
@@ -927,9 +1002,9 @@ func (e *pEval) evalValue(st *pState, v ssa.Value) pVal {
 				return pBool((av.lit == bb.lit) == (x.Op == token.EQL))
 			}
 		}
-		return pUnk{"operation on unmodelled values"}
+		return pUnk{why: "operation on unmodelled values"}
 	}
-	return pUnk{fmt.Sprintf("%T not modelled", v)}
+	return pUnk{why: fmt.Sprintf("%T not modelled", v)}
 }
 
 func (e *pEval) zeroOf(t types.Type) pVal {
@@ -946,7 +1021,7 @@ func (e *pEval) zeroOf(t types.Type) pVal {
 	case *types.Slice:
 		return pList{isNil: true}
 	}
-	return pUnk{"zero value not modelled"}
+	return pUnk{why: "zero value not modelled"}
 }
 
 func uniqSorted(in []string) []string {
